@@ -46,6 +46,7 @@ void vp_writer()
     catch (int) {
         caught = true;
     }
+    vp_log(2000, (caught ? 10 : 0) + at);
     vp_assert(caught == (at != 0), 2000);            // the exception reaches the caller iff user code threw
     // all-or-nothing: a throw from the first application leaves the value unchanged, one from the second completes it
     int expect = (at == 1 || at == 2) ? 0 : 1;
@@ -180,6 +181,7 @@ VP_INLINE void do_op(int op)
         vp_assert(lock_free_now(), 2011);            // whatever lock the wrapper took is released when the exception arrives
     }
     bool threw = (vp_g(8 + vp_tid()) != threw0);
+    vp_log(2012, (caught ? 10 : 0) + (threw ? 1 : 0));
     vp_assert(caught == threw, 2012);                 // propagated iff user code threw during this operation
     vp_assert(lock_free_now(), 2013);
 }
